@@ -33,3 +33,15 @@ pub struct PeerSnapshot {
     pub dtls_role: Option<bool>,
     pub local_dtls_fingerprint: String,
 }
+
+/// Negotiated parameters of a transceiver that live in its sender / receiver objects
+/// (`PeerConnection::verif_negotiated`). Maps / lists are sorted.
+#[derive(Debug, Clone, PartialEq)]
+pub struct NegotiatedSnapshot {
+    pub id: u64,
+    pub sender_params: Option<RtpCodecParameters>,
+    pub receiver_ssrc: Option<u32>,
+    pub receiver_rtx_ssrc: Option<u32>,
+    pub receiver_rtx_apt: Vec<(u8, u8)>,
+    pub receiver_simulcast_rids: Vec<String>,
+}
